@@ -175,6 +175,7 @@ package gtab
 //@   ensures next >= 0 ==> next > a
 //@   modifies ctx.seq, ctx.seq[*], all(nested), allelems(glyph.Info), allelems(int), allelems(rune)
 //@   loop 0
+//@     invariant isnil(skipPos) || isnil(matchPos) || ref(skipPos) != ref(matchPos)
 //@     invariant (isnil(matchPos) || fresh(matchPos)) && (isnil(skipPos) || fresh(skipPos)) && (isnil(text) || fresh(text)) && stackinv(ctx) && keepOK(ctx) && len(ctx.seq) == old(len(ctx.seq)) && len(ctx.stack) == old(len(ctx.stack)) && (forall k int :: 0 <= k && k < len(ctx.stack) ==> !fresh(ctx.stack[k].InputPos))
 //@     invariant ref(seq) == ref(ctx.seq) && off(seq) == off(ctx.seq) && len(seq) == len(ctx.seq) && ref(seq) == old(ref(ctx.seq))
 //@   loop 1
